@@ -11,3 +11,12 @@ fp("dask/bag/random.py", "sample", "choices", "_sample_reduce", "_weighted_sampl
    "_geometric")
 fp("dask/bag/core.py", "Bag.random_sample", "random_sample", "random_state_data_python", "Bag.reduction",
    "empty_safe_apply", "empty_safe_aggregate")
+
+# C48
+fp("dask/bag/core.py", "Bag.fold", "Bag.foldby", "Bag.frequencies", "Bag.topk", "Bag.distinct", "Bag.take", "Bag.accumulate",
+   "accumulate_part", "Bag.groupby", "groupby_tasks", "groupby_disk", "partition", "collect", "make_group", "Bag.product",
+   "Bag.join", "bag_zip", "concat", "from_sequence", "repartition_npartitions", "_split_partitions",
+   "_repartition_from_boundaries", "split", "_reduce", "_reduce_or_initial", "merge_frequencies", "merge_distinct",
+   "chunk_distinct", "safe_take", "Bag.map", "Bag.filter", "Bag.remove", "Bag.pluck", "Bag.flatten", "Bag.map_partitions")
+fp("dask/bag/chunk.py", "groupby_tasks_group_hash", "foldby_combine2", "var_chunk", "var_aggregate")
+fp("dask/utils.py", "digit", "insert")
